@@ -8,6 +8,7 @@ import (
 	"os"
 	"path/filepath"
 	"sort"
+	"strconv"
 	"strings"
 )
 
@@ -15,6 +16,131 @@ import (
 func genAll() {
 	factPackageState()
 	factTerminalOpsClose()
+	genHtmlVocab()
+	genSwitchTables()
+}
+
+// leanStrBytes renders a Go string as a Lean list of its bytes (the models use List Nat).
+func leanStrBytes(s string) string {
+	var b strings.Builder
+	b.WriteString("[")
+	for i := 0; i < len(s); i++ {
+		if i > 0 {
+			b.WriteString(", ")
+		}
+		fmt.Fprintf(&b, "%d", s[i])
+	}
+	b.WriteString("]")
+	return b.String()
+}
+
+func leanStrBytesList(name string, xs []string) string {
+	var b strings.Builder
+	fmt.Fprintf(&b, "def %s : List (List Nat) := [", name)
+	for i, x := range xs {
+		if i > 0 {
+			b.WriteString(",")
+		}
+		fmt.Fprintf(&b, "\n  %s /- %s -/", leanStrBytes(x), strings.ReplaceAll(x, "-/", "- /"))
+	}
+	b.WriteString("]\n")
+	return b.String()
+}
+
+// constString evaluates a string constant expression built from literals and +.
+func constString(e ast.Expr) (string, bool) {
+	switch x := e.(type) {
+	case *ast.BasicLit:
+		if x.Kind == token.STRING {
+			s, err := strconv.Unquote(x.Value)
+			return s, err == nil
+		}
+	case *ast.BinaryExpr:
+		if x.Op == token.ADD {
+			a, ok1 := constString(x.X)
+			b, ok2 := constString(x.Y)
+			return a + b, ok1 && ok2
+		}
+	case *ast.ParenExpr:
+		return constString(x.X)
+	}
+	return "", false
+}
+
+// alternatives extracts A|B|C from a pattern of the shape `(?i)(^|[^a-z])(A|B|C)([^a-z]|$)`.
+func alternatives(pat string) ([]string, bool) {
+	const pre, post = "(?i)(^|[^a-z])(", ")([^a-z]|$)"
+	if !strings.HasPrefix(pat, pre) || !strings.HasSuffix(pat, post) {
+		return nil, false
+	}
+	return strings.Split(pat[len(pre):len(pat)-len(post)], "|"), true
+}
+
+// genHtmlVocab: the class/id vocabularies of htmldoc/navigation.go (regexp alternatives).
+func genHtmlVocab() {
+	f := parseFile("htmldoc/navigation.go")
+	found := map[string][]string{}
+	ast.Inspect(f, func(n ast.Node) bool {
+		// field: regexp.MustCompile(`...`) inside the navigationPatterns literal
+		if kv, ok := n.(*ast.KeyValueExpr); ok {
+			if id, ok := kv.Key.(*ast.Ident); ok {
+				if call, ok := kv.Value.(*ast.CallExpr); ok && len(call.Args) == 1 {
+					if pat, ok := constString(call.Args[0]); ok {
+						if alts, ok := alternatives(pat); ok {
+							found[id.Name] = alts
+						}
+					}
+				}
+			}
+		}
+		// navigationPatterns.excluded = regexp.MustCompile(...) in init()
+		if as, ok := n.(*ast.AssignStmt); ok && len(as.Lhs) == 1 && len(as.Rhs) == 1 {
+			if se, ok := as.Lhs[0].(*ast.SelectorExpr); ok {
+				if call, ok := as.Rhs[0].(*ast.CallExpr); ok && len(call.Args) == 1 {
+					if pat, ok := constString(call.Args[0]); ok {
+						if alts, ok := alternatives(pat); ok {
+							found[se.Sel.Name] = alts
+						}
+					}
+				}
+			}
+		}
+		return true
+	})
+	var b strings.Builder
+	b.WriteString(header + "namespace Tabula.Gen.HtmlVocab\n\n")
+	for _, k := range []string{"nav", "header", "footer", "sidebar", "excluded"} {
+		if found[k] == nil {
+			fatal("htmldoc/navigation.go: pattern %s not found in the expected shape", k)
+		}
+		b.WriteString(leanStrBytesList("vocab_"+k, found[k]))
+		b.WriteString("\n")
+	}
+	b.WriteString("end Tabula.Gen.HtmlVocab\n")
+	write("HtmlVocab.lean", b.String())
+}
+
+// genSwitchTables: string switch tables other models depend on.
+func genSwitchTables() {
+	var b strings.Builder
+	b.WriteString(header + "namespace Tabula.Gen.Tables\n\n")
+	fd := findFunc(parseFile("format/detect.go"), "", "Detect")
+	if fd == nil {
+		fatal("format.Detect not found")
+	}
+	b.WriteString(leanSwitch("detectExtCases", switchCases(fd, 0)))
+	b.WriteString("\n")
+	b.WriteString(leanSwitchBytes("detectExtCasesB", switchCases(fd, 0)))
+	b.WriteString("\n")
+	fs := findFunc(parseFile("core/stream.go"), "", "decodeWithFilter")
+	if fs == nil {
+		fatal("core.decodeWithFilter not found")
+	}
+	b.WriteString(leanSwitch("filterNameCases", switchCases(fs, 0)))
+	b.WriteString("\n")
+	b.WriteString(leanSwitchBytes("filterNameCasesB", switchCases(fs, 0)))
+	b.WriteString("\nend Tabula.Gen.Tables\n")
+	write("Tables.lean", b.String())
 }
 
 // libraryPackages are the directories of tabula's non-test library code.
@@ -338,4 +464,31 @@ func factTerminalOpsClose() {
 	}
 	sort.Strings(terminal)
 	facts["terminal-ops-close"] = Fact{OK: len(bad) == 0 && len(terminal) >= 10, Detail: detail(bad, fmt.Sprintf("%d terminal operations defer e.Close(): %s", len(terminal), strings.Join(terminal, ",")))}
+}
+
+// leanSwitchBytes renders the cases as (literals as byte lists, first word after `return`).
+func leanSwitchBytes(name string, cs []swCase) string {
+	var b strings.Builder
+	fmt.Fprintf(&b, "def %s : List (List (List Nat) × String) := [", name)
+	first := true
+	for _, c := range cs {
+		if len(c.Lits) == 1 && c.Lits[0] == "<default>" {
+			continue
+		}
+		var lits []string
+		for _, l := range c.Lits {
+			lits = append(lits, leanStrBytes(l))
+		}
+		target := strings.TrimPrefix(c.Body, "return ")
+		if i := strings.IndexAny(target, "(, "); i >= 0 {
+			target = target[:i]
+		}
+		if !first {
+			b.WriteString(",")
+		}
+		first = false
+		fmt.Fprintf(&b, "\n  ([%s], %s)", strings.Join(lits, ", "), leanStr(target))
+	}
+	b.WriteString("]\n")
+	return b.String()
 }
